@@ -186,6 +186,8 @@ pub struct CodegenContext {
     current_segment: Option<Identifier>,
     /// The segment that is the current one at the start of every pass (the first one that was defined, or the default one)
     initial_segment: Option<Identifier>,
+    /// Where were bytes emitted in the first pass while there was no segment to emit them to?
+    emitted_without_segment: Option<Span>,
     banks: IndexMap<Identifier, BankOptions>,
 
     functions: FunctionMap,
@@ -245,6 +247,7 @@ impl CodegenContext {
             segments: IndexMap::new(),
             current_segment: None,
             initial_segment: None,
+            emitted_without_segment: None,
             banks: IndexMap::new(),
             functions: HashMap::new(),
             symbols: SymbolTable::default(),
@@ -515,6 +518,9 @@ impl CodegenContext {
                     "Not emitting, since there is no current segment: {:?}",
                     &bytes
                 );*/
+                if self.emitted_without_segment.is_none() && !bytes.is_empty() {
+                    self.emitted_without_segment = Some(span);
+                }
                 Ok(())
             }
         }
@@ -1487,6 +1493,20 @@ pub fn codegen(
             ctx.initial_segment = Some("default".into());
         } else {
             // There were segments, so we have emitted something.
+
+            // Unless the program defines its own segments but has code in front of the first definition: that code
+            // cannot be placed anywhere and would silently disappear.
+            if ctx.pass_idx == 0 {
+                if let Some(span) = ctx.emitted_without_segment {
+                    let e = Diagnostics::from(
+                        Diagnostic::error()
+                            .with_message("code is emitted before the first segment is defined")
+                            .with_labels(vec![span.to_label()]),
+                    )
+                    .with_code_map(&ctx.tree.code_map);
+                    return (Some(ctx), e);
+                }
+            }
 
             // Did we have the exact same errors in the previous pass? Then we need to bail.
             if !errors.is_empty() && errors == prev_errors {
